@@ -749,3 +749,15 @@ canary('c15-char-binary-dropped', 'C15', DEF, """            // strings travel a
                 Err(Error::InvalidValue("expected single char".into()))
             }
 """, "", 'CLOSURE:char')
+
+# ---- C20 ----
+RNG = 'crates/edp_elixir_terms/src/range.rs'
+DT = 'crates/edp_elixir_terms/src/date_time.rs'
+canary('c20-step-key', 'C20', RNG, """            OwnedTerm::Atom(Atom::new("step")),
+            OwnedTerm::Integer(range.step),""", """            OwnedTerm::Atom(Atom::new("stride")),
+            OwnedTerm::Integer(range.step),""", 'CONST:')
+canary('c20-truncating-cast', 'C20', DT, 'let day = u8::try_from(map.get(&OwnedTerm::Atom(Atom::new("day")))?.as_integer()?).ok()?;\n\n        Self::try_new(year, month, day)', 'let day = map.get(&OwnedTerm::Atom(Atom::new("day")))?.as_integer()? as u8;\n\n        Self::try_new(year, month, day)', 'no-truncation')
+canary('c20-unvalidated', 'C20', DT, "        Self::try_new(year, month, day)\n    }\n}", "        Some(Self { year, month, day })\n    }\n}", 'unvalidated-literal')
+canary('c20-len-i64', 'C20', RNG, "        let diff = (self.last as i128 - self.first as i128).unsigned_abs();", "        let diff = ((self.last - self.first) as i128).unsigned_abs();", 'OVERFLOW:')
+canary('c20-contains-neg', 'C20', RNG, "                && (self.first as i128 - value as i128) % (-(self.step as i128)) == 0", "                && (self.first as i128 - value as i128) % ((-self.step) as i128) == 0", 'OVERFLOW:')
+canary('c20-struct-name', 'C20', 'crates/edp_elixir_terms/src/map_set.rs', 'OwnedTerm::Atom(Atom::new("Elixir.MapSet")),', 'OwnedTerm::Atom(Atom::new("Elixir.Mapset")),', 'CONST:')
